@@ -73,6 +73,21 @@ def more_toks(ck, toks, pairs, tag="pre2"):
 
 
 # ------------------------------------------------------------------------------------------------ replay + TV
+_RUN_WORK = None
+
+
+def run_work_dir():
+    """scratch directory of this process (scripts and traces of every leg); removed when the process ends"""
+    global _RUN_WORK
+    if _RUN_WORK is None:
+        import atexit
+        _RUN_WORK = os.path.join(OUT, "work", "run_%d" % os.getpid())
+        shutil.rmtree(_RUN_WORK, ignore_errors=True)
+        os.makedirs(_RUN_WORK)
+        atexit.register(lambda: shutil.rmtree(_RUN_WORK, ignore_errors=True))
+    return _RUN_WORK
+
+
 def shard_cases(cases, nshards):
     shards = [[] for _ in range(nshards)]
     for i, c in enumerate(cases):
@@ -124,7 +139,7 @@ def sample_stage(cases, budget):
 
 def run_cases(prop, cases, ck, sh=None, spec="TV_Store", nshards=None, budget_ms=20000, stage_budget=0):
     """replays the cases on the real code (in parallel), validates every trace with TLC, returns the merged result"""
-    work = os.path.join(OUT, "work", prop)
+    work = os.path.join(run_work_dir(), prop)        # private to this process: checks may run side by side
     shutil.rmtree(work, ignore_errors=True)
     os.makedirs(work)
     cases = [dedup_case(c) for c in cases]
